@@ -38,6 +38,9 @@ RULE = ('scenarios from one PRNG state over the configuration lattice: 2..5 chan
         'largest index first, and channel sets CPython iterates out of order ({1,8} -> 8,1; {33,1,2,3,4}); judged: every value under every key of cache[\'FFT_slices\'], cache_to_psd, cache_to_phase is the one of ITS channel, '
         'SparseCoherenceAnalyzer.spectrum / phases / delay; the block also enumerates the corners NFFT parity x {default, 0, NFFT-1, NFFT//2} overlap x {shorter, equal, one more, many times} NFFT x band x both flags.')
 ASSUMPTIONS = ['real-valued input, 0 <= n_overlap < NFFT, Fs > 0, real window with non-zero energy, 0 <= lb <= ub <= Fs/2',
+               'ROUND 4 (L10): scale scenarios -- per-channel gains 2^e (e = +-100, +-250, +-255, [250,-250,0], [0,-30,0], and per scenario the largest / smallest exponents, uniform and lopsided by 200 and 30 binades, for which the DENSE products Pxx*Pyy of the scaled data stay below 2^(1024-8) / above 2^(-1022+6); '
+               'scale_by_freq=False: a further 2|log2 Fs| bits, its normalisation differs from the dense one by Fs^2); gains that leave this range are shifted into it; a scenario whose dense reference on the scaled data is not finite or not equal (1e-9) to the dense reference on the unscaled data is dropped and counted. '
+               'Judged: cache / Sparse / Seed coherency, coherence, PSD (x gain^2), relative phases, Sparse spectrum / phases against the dense path on the same scaled data AND on the unscaled data',
                'band edges are generated off the frequency grid (or 0 / None), so that an ulp of difference between two evaluations of the same grid cannot move a bin',
                'scale_by_freq=False has no dense counterpart in get_spectra: the cached PSD is then compared with Fs x the dense density',
                'cache_to_relative_phase averages per-window angles; it is compared with the dense angle only for a single window (the property clause), '
@@ -237,6 +240,84 @@ def make_scenarios(rng, tier, seed):
             sc['ijform'] = [None, 'tuple', 'lists', 'ndarray'][fam % 4]
             out.append(sc)
     out += label_scenarios(nr, big)
+    out += scale_scenarios(nr, seed, big)
+    return out
+
+
+# ------------------------------------------------------------------ L10: extreme and lopsided magnitudes (power-of-two gains per channel)
+# Coherency / coherence / phases are scale-free and the PSD scales by the squared gain, EXACTLY for power-of-two gains as long as nothing
+# overflows or goes subnormal.  The quantifier is "where the dense path stays finite (and normal)": per scenario the dense spectra of the
+# unscaled data give the largest exponent whose products Pxx*Pyy stay below 2^(1024 - margin) ('top') and the smallest one whose products
+# stay 2^6 above the subnormal range ('bottom'); margin = 8 bits (+ 2 log2 Fs for scale_by_freq=False, whose normalisation has no dense
+# counterpart and legitimately differs from the dense one by Fs^2).  A scenario whose dense reference on the scaled data is not finite or
+# not equal (1e-9) to the dense reference on the unscaled data is dropped (SCALE_DROPPED).
+SCALE_KINDS = ['top', 'p100', 'm250', 'top-lopsided', 'bottom', 'lop-250', 'p250', 'top', 'lop-30', 'm100', 'bottom-lopsided', 'top-lopsided', 'p255', 'm255']
+SCALE_DROPPED = {}
+
+
+def scale_scenarios(nr, seed, big):
+    A = tsa()
+    out = []
+    SCALE_DROPPED.clear()
+    kinds = SCALE_KINDS * (3 if big else 1)
+    for k, kind in enumerate(kinds):
+        k2 = k + seed
+        nch = 3
+        NFFT = [8, 16, 15, 7][k2 % 4]
+        n = [4 * NFFT + 3, NFFT, 6 * NFFT][k2 % 3]
+        Fs = [1000.0, 250.0, 1024.0, 1.0, 0.5][k2 % 5]
+        sbf = True if (kind.startswith('top') and k % 2 == 0) or kind == 'lop-250' else bool(k2 % 2)      # lop-250 needs nearly the whole range: no room for the Fs^2 margin
+        nf = NFFT // 2 + 1
+        if k2 % 2:
+            lb, ub = 0.0, None
+        else:
+            i = 1 + k2 % (nf - 2)
+            lb, ub = (i - 0.5) * Fs / NFFT, (min(nf, i + 2 + k2 % 2) - 0.5) * Fs / NFFT
+        X0 = gen_data(nr, nch, n)
+        sc = {'data': X0.tolist(), 'NFFT': NFFT, 'nov': [None, 0, NFFT // 2][k2 % 3], 'win': 'hann' if k2 % 2 else 'hamming',
+              'winvals': None if k2 % 2 else win_vals('hamming', NFFT, nr), 'Fs': Fs, 'lb': lb, 'ub': ub,
+              'ij': [(0, 1), (1, 0), (2, 2), (1, 2), (0, 0)], 'sbf': sbf, 'psm': bool((k2 // 2) % 2), 'nseed': [1, 0, 2][k2 % 3], 'light': True}
+        with np.errstate(all='ignore'):
+            f, fxy = A.get_spectra(X0, method_of(sc, dense=True))
+            f, c0 = A.coherency(X0, method_of(sc, dense=True))
+        li = int(np.searchsorted(f, lb, 'left'))
+        ui = len(f) if ub is None else int(np.searchsorted(f, ub, 'right'))
+        P = np.array([np.real(fxy[a, a, li:ui]) for a in range(nch)])
+        if not np.all(P > 0):
+            SCALE_DROPPED[kind] = SCALE_DROPPED.get(kind, 0) + 1
+            continue
+        hi, lo = np.log2(P.max(axis=1)), np.log2(P.min(axis=1))
+        extra = 0.0 if sbf else 2 * abs(math.log2(Fs))
+        top = int(math.floor((1024 - 8 - extra - 2 * hi.max()) / 4))
+        bot = int(math.ceil((-1022 + 6 + extra - 2 * lo.min()) / 4))
+        ex = {'top': [top] * 3, 'top-lopsided': [top, top - 200 - k2 % 40, top - 30], 'bottom': [bot] * 3, 'bottom-lopsided': [bot, bot + 200 + k2 % 40, bot + 30],
+              'p100': [100] * 3, 'm100': [-100] * 3, 'p250': [250] * 3, 'm250': [-250] * 3, 'p255': [255] * 3, 'm255': [-255] * 3,
+              'lop-250': [250, -250, 0], 'lop-30': [0, -30, 0]}[kind]
+        # fit into the quantifier: shift all gains down (up) until the largest (smallest) product is inside the margins
+        pmax = max(hi[a] + hi[b] + 2 * (ex[a] + ex[b]) for a in range(3) for b in range(3))
+        if pmax > 1024 - 8 - extra:
+            d = int(math.ceil((pmax - (1024 - 8 - extra)) / 4))
+            ex = [e - d for e in ex]
+        pmin = min(lo[a] + lo[b] + 2 * (ex[a] + ex[b]) for a in range(3) for b in range(3))
+        if pmin < -1022 + 6 + extra:
+            d = int(math.ceil(((-1022 + 6 + extra) - pmin) / 4))
+            ex = [e + d for e in ex]
+            pmax = max(hi[a] + hi[b] + 2 * (ex[a] + ex[b]) for a in range(3) for b in range(3))
+            if pmax > 1024 - 8 - extra:
+                SCALE_DROPPED[kind] = SCALE_DROPPED.get(kind, 0) + 1
+                continue
+        X = X0 * np.array([2.0 ** e for e in ex])[:, None]
+        with np.errstate(all='ignore'):
+            f1, c1 = A.coherency(X, method_of(sc, dense=True))
+        a_, b_ = c0[:, :, li:ui], c1[:, :, li:ui]
+        if not (np.all(np.isfinite(np.abs(X))) and np.all(np.isfinite(np.abs(b_))) and np.abs(a_ - b_).max() <= 1e-9):
+            SCALE_DROPPED[kind] = SCALE_DROPPED.get(kind, 0) + 1
+            continue
+        sc['data'] = X.tolist()
+        sc['scale'] = kind
+        sc['gains'] = ex
+        sc['unscaled'] = X0.tolist()
+        out.append(sc)
     return out
 
 
@@ -499,7 +580,7 @@ def impl_results(sc):
                'coherence': np.array([np.asarray(S.coherence)[i, j] for i, j in ij]).reshape(len(ij), -1),
                'relphase': np.array([np.asarray(S.relative_phases)[i, j] for i, j in ij]).reshape(len(ij), -1),
                'frequencies': np.asarray(S.frequencies)}
-        if sc.get('labels'):
+        if sc.get('labels') or sc.get('scale'):
             chans = sorted({c for p in ij for c in p})
             sp, ph = S.spectrum, S.phases
             out['spectrum'] = np.array([np.real(np.asarray(sp[c])).reshape(-1) for c in chans])
@@ -679,10 +760,16 @@ def cfg_class(sc, nslices):
         fam += '/window-as-%s' % sc['wform']
     if sc.get('labels'):
         fam += '/pairs-%s' % sc['labels']
+    if sc.get('scale'):
+        fam += '/scale-%s' % sc['scale']
     return '%s-nfft/%s-overlap/%s/%s%s' % ('even' if sc['NFFT'] % 2 == 0 else 'odd',
                                          'default' if sc['nov'] is None else 'explicit',
                                          'full-band' if (sc['lb'] == 0 and sc['ub'] is None) else 'band-limited',
                                          'single-window' if nslices == 1 else 'multi-window', fam)
+
+
+def sd_ok(R):
+    return not isinstance(R.get('seed'), str) and R.get('seed') is not None
 
 
 def judge(sc, R):
@@ -773,6 +860,47 @@ def judge(sc, R):
             okm = np.isfinite(wd) & (np.abs(want) > 1e-6) & (np.abs(np.abs(np.angle(want)) - np.pi) > 1e-6)
             if s['delay'].shape == wd.shape and okm.any() and np.abs(s['delay'][okm] - wd[okm]).max() > 1e-6 * max(1.0, np.abs(wd[okm]).max()):
                 fails.append(('sparse-delay/%s/ne-dense' % cls, 'SparseCoherenceAnalyzer.delay differs from angle(dense coherency)/(2 pi f) for the pair it is indexed by', 'sparse-coherency'))
+    if sc.get('scale'):
+        # power-of-two gains per channel: coherency / coherence / relative phases are those of the UNSCALED recording (exactly, up to the rounding
+        # of the path), the PSD is the unscaled PSD times the squared gain; Sparse .spectrum / .phases follow the cache functions
+        X0 = np.array(sc['unscaled'], dtype=float)
+        with np.errstate(all='ignore'):
+            _f0, c0 = tsa().coherency(X0, method_of(sc, dense=True))
+            _f0, p0 = tsa().get_spectra(X0, method_of(sc, dense=True))
+        want0 = np.array([c0[i, j, li:ui] for i, j in ij]).reshape(len(ij), -1)
+        gdesc = 'gains 2^%s per channel' % sc['gains']
+        for nm, got in (('coherency', c['coherency']), ('sparse-coherency', None if isinstance(s, str) else s['coherency'])):
+            w = None if got is None else differs(got, want0)
+            if w:
+                fails.append(('%s/%s/ne-unscaled-dense' % (nm, cls), '%s on data with %s differs from coherency() of the unscaled data: %s' % (nm, gdesc, w), nm))
+        if not isinstance(s, str):
+            w = differs(s['coherence'], np.abs(want0) ** 2)
+            if w:
+                fails.append(('sparse-coherence/%s/ne-unscaled-dense' % cls, 'SparseCoherenceAnalyzer.coherence on data with %s differs from |coherency()|^2 of the unscaled data: %s' % (gdesc, w), 'sparse-coherency'))
+        wantp0 = np.array([np.real(p0[a, a, li:ui]) * 4.0 ** sc['gains'][a] for a in chans]).reshape(len(chans), -1) * (1.0 if sc['sbf'] else sc['Fs'])
+        w = differs(c['psd'], wantp0)
+        if w:
+            fails.append(('psd/%s/ne-scaled-unscaled-dense' % cls, 'cache_to_psd on data with %s differs from gain^2 x the dense PSD of the unscaled data: %s' % (gdesc, w), 'psd'))
+        if not isinstance(s, str) and 'spectrum' in s:
+            w = differs(s['spectrum'], wantp)
+            if w:
+                fails.append(('sparse-spectrum/%s/ne-dense' % cls, 'SparseCoherenceAnalyzer.spectrum differs from the dense PSD: ' + w, 'psd'))
+            if s['phases'].shape != c['phase'].shape or not np.array_equal(np.nan_to_num(s['phases']), np.nan_to_num(c['phase'])):
+                fails.append(('sparse-phases/%s/ne-cache' % cls, 'SparseCoherenceAnalyzer.phases differ from cache_to_phase on the same input', 'phase'))
+        if sd_ok(R):
+            nsd_ = max(sc['nseed'], 1)
+            ws0 = np.array([[c0[a, b, li:ui] for b in range(nsd_, X.shape[0])] for a in range(nsd_)])
+            got = np.asarray(R['seed']['coherency'])
+            w = differs(got.reshape(-1), ws0.reshape(-1)) if got.size == ws0.size else 'size'
+            if w:
+                fails.append(('seed/%s/ne-unscaled-dense' % cls, 'SeedCoherenceAnalyzer.coherency on data with %s differs from the dense rows of the unscaled data: %s' % (gdesc, w), 'seed'))
+        # the phases of the cache are scale-free too
+        with np.errstate(all='ignore'):
+            _fq, cq = tsa().cache_fft(X0, ij_arg(sc), method=method_of(sc), lb=sc['lb'], ub=sc['ub'], prefer_speed_over_memory=sc['psm'], scale_by_freq=sc['sbf'])
+            rel0 = tsa().cache_to_relative_phase(cq, ij_arg(sc))
+        rel0 = np.real(np.array([rel0[i, j] for i, j in ij])).reshape(len(ij), -1)
+        if rel0.shape != c['relphase'].shape or max([circ(v) for v in (rel0 - c['relphase']).reshape(-1)] + [0.0]) > 1e-6:
+            fails.append(('relphase/%s/ne-unscaled' % cls, 'cache_to_relative_phase on data with %s differs from the one of the unscaled data' % gdesc, 'relphase'))
     # relative phase: single window against the dense angle
     if c['nslices'] == 1 and c['relphase'].shape == want.shape:
         dang = np.angle(np.array([fxy[min(i, j), max(i, j), li:ui] if i <= j else np.conj(fxy[j, i, li:ui]) for i, j in ij]).reshape(len(ij), -1))
@@ -1444,7 +1572,8 @@ def oracle(rng, tier, seed, focus, cases=None):
     labs = [sc for sc in _SC.get('list', []) if sc.get('labels')]
     lab_stats = {'label_scenarios': len(labs), 'label_scenarios_whose_channel_set_iterates_unsorted': sum(1 for sc in labs if sc['setiter'] != sorted(sc['setiter'])),
                  'label_channel_counts': sorted({len(sc['data']) for sc in labs})}
-    return fails, {'labels': lab_stats, 'scenarios_judged': nj, 'round2_scenarios': n2, 'round2_refused_calls_seen': nraise, 'failed_checks': len({(id(f.replay['scenario']), f.key) for f in fails}),
+    scl = [sc for sc in _SC.get('list', []) if sc.get('scale')]
+    return fails, {'labels': lab_stats, 'scale_scenarios': {'kept': len(scl), 'dropped_outside_quantifier': dict(SCALE_DROPPED), 'gains': {sc['scale']: sc['gains'] for sc in scl}}, 'scenarios_judged': nj, 'round2_scenarios': n2, 'round2_refused_calls_seen': nraise, 'failed_checks': len({(id(f.replay['scenario']), f.key) for f in fails}),
                    'distinct_failure_keys': len({f.key for f in fails}), 'focus': len(focus)}
 
 
